@@ -576,6 +576,7 @@ class SymStringIO:
         self._p = 0
 
     def readline(self):
+        core.EX.tick()     # a scanner that keeps asking for lines after the end of input must run into the step budget
         e = self._t.e
         n = len(e)
         if self._p >= n:
